@@ -44,6 +44,42 @@ pub fn measure(input: &[u8]) -> Measured {
     Measured { len: input.len(), consumed, bytes: b1 - b0, calls: c1 - c0, secs, outcome }
 }
 
+/// the input in pieces of at most `piece` bytes, never pending
+struct Pieces {
+    data: Vec<u8>,
+    pos: usize,
+    piece: usize,
+}
+impl futures_util::io::AsyncRead for Pieces {
+    fn poll_read(mut self: std::pin::Pin<&mut Self>, _cx: &mut std::task::Context<'_>, buf: &mut [u8]) -> std::task::Poll<std::io::Result<usize>> {
+        let n = buf.len().min(self.piece).min(self.data.len() - self.pos);
+        let p = self.pos;
+        buf[..n].copy_from_slice(&self.data[p..p + n]);
+        self.pos += n;
+        std::task::Poll::Ready(Ok(n))
+    }
+}
+
+/// the async parser on `input` delivered in pieces of `piece` bytes (usize::MAX: whole)
+pub fn measure_async(input: &[u8], piece: usize) -> Measured {
+    let src = Pieces { data: input.to_vec(), pos: 0, piece };
+    let (b0, c0) = crate::alloc::snapshot();
+    let t0 = std::time::Instant::now();
+    let r = futures_executor::block_on(ipp::parser::AsyncIppParser::new(ipp::reader::AsyncIppReader::new(src)).parse_parts());
+    let secs = t0.elapsed().as_secs_f64();
+    let (b1, c1) = crate::alloc::snapshot();
+    let (consumed, outcome) = match r {
+        Ok((h, a, rd)) => {
+            let pos = rd.into_inner().pos;
+            std::mem::forget(a);
+            std::mem::forget(h);
+            (Some(pos), "ok".to_string())
+        }
+        Err(e) => (None, show_parse_err(&e)),
+    };
+    Measured { len: input.len(), consumed, bytes: b1 - b0, calls: c1 - c0, secs, outcome }
+}
+
 /// `cost FAMILY N`
 fn op_cost(line: &str, args: &[SExp]) -> CaseResult {
     let (kind, n) = match (args.first().and_then(|a| a.atom()), args.get(1).and_then(|a| a.atom()).and_then(|s| s.parse::<usize>().ok())) {
@@ -71,10 +107,50 @@ fn op_cost(line: &str, args: &[SExp]) -> CaseResult {
         // doubling: the cost at n must not exceed 2.5 x the cost at n/2 (plus slack)
         if let Some(half) = crate::malformed::family(&kind, n / 2) {
             let h = measure(&half);
-            if m.secs > 0.2 && m.secs > 5.0 * h.secs + 0.1 {
-                oracle = Some(format!("family `{}`: {:.0} ms for {} input bytes but {:.0} ms for {} (time grows {:.1}x on doubling)", kind, m.secs * 1e3, m.len, h.secs * 1e3, h.len, m.secs / h.secs.max(1e-9)));
+            // a suspected super-linear step is measured again and reported only when all four paired measurements
+            // show it: one slow run on a busy machine is not a property of the parser
+            let steep = |a: f64, b: f64| a > 0.1 && a > 3.0 * b + 0.03;
+            let (mut ms, mut hs) = (m.secs, h.secs);
+            let mut all = steep(ms, hs);
+            if all {
+                for _ in 0..3 {
+                    let (a, b) = (measure(&input).secs, measure(&half).secs);
+                    all = all && steep(a, b);
+                    if a / b.max(1e-9) < ms / hs.max(1e-9) {
+                        ms = a;
+                        hs = b;
+                    }
+                }
+            }
+            if all {
+                oracle = Some(format!("family `{}`: {:.0} ms for {} input bytes but {:.0} ms for {} (time grows {:.1}x on doubling, least of four measurements)", kind, ms * 1e3, m.len, hs * 1e3, h.len, ms / hs.max(1e-9)));
             } else if m.bytes as f64 > 2.5 * h.bytes as f64 + 65536.0 {
                 oracle = Some(format!("family `{}`: {} bytes allocated for {} input bytes but {} for {} (growth factor {:.1} on doubling)", kind, m.bytes, m.len, h.bytes, h.len, m.bytes as f64 / h.bytes.max(1) as f64));
+            }
+        }
+    }
+    // the async parser: whole input, then delivered in small pieces as a socket would
+    if oracle.is_none() {
+        let whole = measure_async(&input, usize::MAX);
+        if whole.consumed != m.consumed || whole.outcome != m.outcome {
+            oracle = Some(format!("family `{}` n={}: async parser consumed {:?} ({}), blocking parser {:?} ({})", kind, n, whole.consumed, whole.outcome, m.consumed, m.outcome));
+        } else if whole.bytes > 400 * whole.len as u64 + 16384 {
+            oracle = Some(format!("async parsing of {} bytes of family `{}` allocated {} bytes ({:.0} per input byte; ceiling 400)", whole.len, kind, whole.bytes, whole.bytes as f64 / whole.len as f64));
+        } else if whole.secs > 0.25 && whole.secs * 1e6 > 2.0 * whole.len as f64 + 150_000.0 {
+            oracle = Some(format!("async parsing of {} bytes of family `{}` took {:.0} ms ({:.1} microseconds per input byte)", whole.len, kind, whole.secs * 1e3, whole.secs * 1e6 / whole.len as f64));
+        } else {
+            for piece in [64usize, 536] {
+                let f = measure_async(&input, piece);
+                if f.consumed != m.consumed || f.outcome != m.outcome {
+                    oracle = Some(format!("family `{}` n={}: async parser fed {}-byte pieces consumed {:?} ({}), blocking parser {:?} ({})", kind, n, piece, f.consumed, f.outcome, m.consumed, m.outcome));
+                } else if f.bytes > 2 * whole.bytes + 65536 {
+                    oracle = Some(format!("family `{}`: async parsing of {} input bytes allocated {} bytes when delivered in {}-byte pieces but {} when delivered whole (fragmentation multiplies the allocation)", kind, f.len, f.bytes, piece, whole.bytes));
+                } else if f.secs > 0.5 && f.secs * 1e6 > 4.0 * f.len as f64 + 300_000.0 {
+                    oracle = Some(format!("async parsing of {} bytes of family `{}` in {}-byte pieces took {:.0} ms ({:.1} microseconds per input byte)", f.len, kind, piece, f.secs * 1e3, f.secs * 1e6 / f.len as f64));
+                }
+                if oracle.is_some() {
+                    break;
+                }
             }
         }
     }
